@@ -28,7 +28,8 @@ class ImmutableDict(Mapping, Generic[KT, VT]):
         data: Union[Iterable[Tuple[KT, VT]], ImmutableDict[KT, VT], Dict[KT, VT]] = {},
     ):
         if isinstance(data, dict):
-            self._data = data
+            # copy: the caller may mutate its dict afterwards
+            self._data = dict(data)
         elif isinstance(data, ImmutableDict):
             self._data = data._data
         else:
